@@ -580,6 +580,25 @@ def cval_coq(j):
     raise Odd("dynamic type " + str(j.get("x")))
 
 
+def pyval_coq(v):
+    """generator value -> Coq cval"""
+    k = v[0]
+    if k == "n":
+        return "VNull"
+    if k == "b":
+        return "(VBool %s)" % vlib.coq_bool(v[1])
+    if k == "i":
+        return "(VInt %s)" % vlib.coq_z(v[1])
+    if k == "f":
+        me = dec_norm(v[1])
+        return "(VDec %s %s)" % (vlib.coq_z(me[0]), vlib.coq_z(me[1]))
+    if k == "s":
+        return "(VStr %s)" % vlib.coq_bytes(v[1].encode())
+    if k == "l":
+        return "(VList %s)" % vlib.coq_list(pyval_coq(x) for x in v[1])
+    return "(VMap %s)" % vlib.coq_list("(%s, %s)" % (vlib.coq_bytes(kk.encode()), pyval_coq(x)) for kk, x in v[1])
+
+
 def fval_coq(j):
     if "S" in j:
         return "(FStr %s)" % vlib.coq_bytes(unhex(j["S"]))
@@ -645,11 +664,18 @@ def coq_case(c, o, fix):
     get2 = "None"
     if o.get("get2") is not None:
         get2 = "(Some %s)" % cval_coq(o["get2"])
-    return "mkCase %d %d %s %s %s %s %s %s %s %s %s %s %s %s %s %s %s %s" % (
+    hist = "None"
+    if c.get("hist") is not None:                      # populated again: (the loaded document, the Sets)
+        doc, sets = c["hist"]
+        hist = "(Some (%s, %s))" % (
+            vlib.coq_list("(%s, %s)" % (vlib.coq_bytes(kk.encode()), pyval_coq(x)) for kk, x in doc[1]),
+            vlib.coq_list("(%s, %s)" % (vlib.coq_bytes(kk.encode()), pyval_coq(x)) for kk, x in sets))
+    return "mkCase %d %d %s %s %s %s %s %s %s %s %s %s %s %s %s %s %s %s %s (%s, %s)" % (
         c["id"], kind, vlib.coq_bool(c["req"]), vlib.coq_bytes(c["key"]), v, vlib.coq_bytes(tag_text(c)),
         type_coq(c["type"]), vlib.coq_bool(fix), obs_coq(o.get("prefix")), obs_coq(o.get("value")), obs_coq(o.get("prop")),
         pre, obs_coq(o.get("fresh")), coq_opt_bytes(c.get("dflt")), vlib.coq_bytes(c.get("pfx", "")),
-        vlib.coq_bytes(c.get("sfx", "")), coq_opt_bytes(c.get("mapper")), get2)
+        vlib.coq_bytes(c.get("sfx", "")), coq_opt_bytes(c.get("mapper")), get2, hist,
+        vlib.coq_bytes(c.get("xb", "")), vlib.coq_bytes(c.get("xa", "")))
 
 
 # ------------------------------------------------------------------------------------------------
@@ -790,7 +816,7 @@ def gen_group_case(rng, key):
         c["value"], c["req"], c["dflt"] = ["s", ""], False, rng.choice(DEFAULTS)
     elif rr < 0.32 and t == ["string"]:
         c["kind"], c["pfx"], c["sfx"] = "tpl", rng.choice(["pre-", "http://", "id=", ""]), rng.choice(["-post", "/p", ".local"])
-    return c
+    return add_xargs(rng, c, 0.25)
 
 
 def gen_group(rng, gid):
@@ -886,11 +912,230 @@ def gen_sharing_group(rng, gid, deep):
     return {"gid": gid, "starts": starts, "mutate": True, "deep": deep}
 
 
+# ---- retry groups: the points of one (lazy) component definition populated twice, Configure.Set in between ----------
+
+RETRY_GATES = ["init", "init", "aps", "validate", "dep"]
+
+
+def gen_retry_binding(rng, key):
+    """a well-typed binding with the value its key holds when the start loads the configuration (value0; None = the key
+    is absent then) and the value it holds after the Sets (value, never empty)"""
+    r = rng.random()
+    if r < 0.18:                                       # placeholder(s) inside a longer literal, string field
+        c = mk_key_case(rng, ["s", rng.choice(WT_WORDS[:12])], ["string"], req=True, key=key, stream="retry-group")
+        c["kind"], c["pfx"], c["sfx"] = "tpl", rng.choice(["pre-", "http://", "id=", ""]), rng.choice(["-post", "/api", ".local", ":80"])
+        t, tagkey = ["string"], "yaml"
+    else:
+        mapper = rng.choice(MAPPERS) if rng.random() < 0.2 else None
+        t = gen_wt_type(rng)
+        tagkey = decoder_tag(mapper)
+        c = mk_key_case(rng, gen_wt_value(rng, t, tagkey), t, req=rng.random() < 0.75, key=key, stream="retry-group")
+        c["mapper"] = mapper
+    if rng.random() < 0.15:
+        c["dflt"] = rng.choice(["dflt", "7", "fallback", "x y"]) if t == ["string"] else None
+    rr = rng.random()
+    if rr < 0.2:                                       # control: the key keeps its value
+        c["value0"] = copy.deepcopy(c["value"])
+    elif rr < 0.35:                                    # absent at first (required without a default: the first creation fails there)
+        c["value0"] = None
+    else:
+        v0 = c["value"]
+        for _ in range(6):
+            v0 = gen_wt_value(rng, t, tagkey) if c["kind"] == "key" else ["s", rng.choice(WT_WORDS[:12])]
+            if v0 != c["value"]:
+                break
+        c["value0"] = v0
+    return add_xargs(rng, c, 0.3)
+
+
+def retry_stuck(c):
+    """the binding alone refuses the first creation: a required point whose key has no value when the start loads the
+    configuration (the prefix route of a key binding knows no default)"""
+    if c["kind"] == "lit" or c.get("value0") is not None or not c["req"]:
+        return False
+    # a template with literal text around the placeholder never yields an empty tag value
+    return c["kind"] == "key" or (c.get("dflt") is None and not c.get("pfx") and not c.get("sfx"))
+
+
+def gen_retry_group(rng, gid):
+    comps, gates = [], []
+    k = 0
+    for _ in range(rng.choice([1, 1, 2])):
+        cases = []
+        for _ in range(rng.choice([1, 2, 2, 3])):
+            key = "k%d" % k if rng.random() < 0.5 else "s%d.val" % k
+            cases.append(gen_retry_binding(rng, key))
+            k += 1
+        comps.append(cases)
+        gates.append("required" if any(retry_stuck(c) for c in cases) else rng.choice(RETRY_GATES))
+    g = {"gid": gid, "starts": [{"comps": comps}], "retry": {"gates": gates, "spell": rng.random()}}
+    return g
+
+
+def retry_sets(g):
+    """the Configure.Set calls between the two requests: new values for the bindings' keys, the gates' keys"""
+    sets, seen = [], set()
+    spell = g["retry"].get("spell", 1.0)
+    for comp in g["starts"][0]["comps"]:
+        for c in comp:
+            if c["kind"] != "lit" and c.get("value0") != c["value"] and c["key"] not in seen:
+                seen.add(c["key"])
+                key = c["key"].upper() if spell < 0.15 else c["key"].title() if spell < 0.3 else c["key"]
+                sets.append([key, c["value"]])
+    if "validate" in g["retry"]["gates"]:
+        sets.append(["rgate.n", ["i", 500]])
+    if "dep" in g["retry"]["gates"]:
+        sets.append(["rgate.dep", ["s", "retrydep"]])
+    return sets
+
+
+def retry_doc(g):
+    """the configuration the start loads, as a nested value: the OLD values of the bindings and of the gates"""
+    doc = ["m", [["other", ["m", [["key", ["i", 1]]]]], ["rgate", ["m", [["n", ["i", 1]], ["dep", ["s", "nosuchcomponent"]]]]]]]
+    seen = {}
+
+    def put(node, segs, v):
+        for kv in node[1]:
+            if kv[0] == segs[0]:
+                if len(segs) == 1 or kv[1][0] != "m":
+                    raise ValueError("retry group: key path %s configured twice" % ".".join(segs))
+                return put(kv[1], segs[1:], v)
+        for seg in reversed(segs[1:]):
+            v = ["m", [[seg, v]]]
+        node[1].append([segs[0], v])
+    for comp in g["starts"][0]["comps"]:
+        for c in comp:
+            if c["kind"] == "lit" or c.get("value0") is None:
+                continue
+            if c["key"] in seen:
+                if seen[c["key"]] != c["value0"]:
+                    raise ValueError("retry group: two first values for key %s" % c["key"])
+                continue
+            seen[c["key"]] = c["value0"]
+            put(doc, c["key"].split("."), copy.deepcopy(c["value0"]))
+    return doc
+
+
+def pyval_json(v):
+    """generator value -> the driver's <cval> JSON (what is handed to Configure.Set)"""
+    k = v[0]
+    if k == "n":
+        return {"n": 1}
+    if k == "b":
+        return {"b": v[1]}
+    if k == "i":
+        return {"i": str(v[1])}
+    if k == "f":
+        return {"f": v[1]}
+    if k == "s":
+        return {"s": hexs(v[1])}
+    if k == "l":
+        return {"l": [pyval_json(x) for x in v[1]]}
+    return {"m": [[hexs(kk), pyval_json(x)] for kk, x in v[1]]}
+
+
+def go_src_type(t):
+    """Go source text of a generated field type (the same shape harness/cmd/c17 goType builds with reflect)"""
+    k = t[0]
+    if k in ("string", "bool", "any"):
+        return k
+    if k in ("int", "uint"):
+        return k + (str(t[1]) if t[1] else "")
+    if k == "float":
+        return "float%d" % t[1]
+    if k == "ptr":
+        return "*" + go_src_type(t[1])
+    if k == "slice":
+        return "[]" + go_src_type(t[1])
+    if k == "map":
+        return "map[string]" + go_src_type(t[1])
+    fields = []
+    for f in t[1]:
+        tags = " ".join("%s:%s" % (a, json.dumps(b, ensure_ascii=False)) for a, b in field_tags(f))
+        fields.append("%s %s %s" % (f[0], go_src_type(f[2]), json.dumps(tags, ensure_ascii=False)) if tags else
+                      "%s %s" % (f[0], go_src_type(f[2])))
+    return "struct { " + "; ".join(fields) + " }"
+
+
+def go_field_tag(name, text):
+    return json.dumps("%s:%s" % (name, json.dumps(text, ensure_ascii=False)), ensure_ascii=False)
+
+
+def retry_names(g):
+    n = len(g["starts"][0]["comps"])
+    return ["RG%dC%d" % (g["gid"], ci) for ci in range(n)], ["rg%dc%d" % (g["gid"], ci) for ci in range(n)]
+
+
+def retry_go_source(groups):
+    """retry_types.go: one lazy struct type per component of every retry group"""
+    out = ["// generated by tools/props/c17.py - the lazy components of the retry groups\npackage main\n",
+           "import \"github.com/go-kid/ioc/definition\"\n"]
+    for g in groups:
+        if not g.get("retry"):
+            continue
+        tnames, cnames = retry_names(g)
+        for ci, comp in enumerate(g["starts"][0]["comps"]):
+            lines = ["type %s struct {" % tnames[ci], "\tdefinition.LazyInitComponent", "\tRetryGate"]
+            for i, c in enumerate(comp):
+                gc = go_case(c, False)
+                ft = go_src_type(c["type"])
+                body = gc["body"] or c["key"]
+                if c["kind"] == "lit":
+                    lines.append("\tK%dValue %s %s" % (i, ft, go_field_tag("value", gc["text"])))
+                elif c["kind"] == "tpl":
+                    lines.append("\tK%dValue %s %s" % (i, ft, go_field_tag("value", gc["pfx"] + "${" + body + "}" + gc["sfx"] + gc["args"])))
+                else:
+                    lines.append("\tK%dPrefix %s %s" % (i, ft, go_field_tag("prefix", c["key"] + gc["args"])))
+                    lines.append("\tK%dValue %s %s" % (i, ft, go_field_tag("value", "${" + body + "}" + gc["args"])))
+                    lines.append("\tK%dProp %s %s" % (i, ft, go_field_tag("prop", body + gc["args"])))
+            gate = g["retry"]["gates"][ci]
+            if gate == "validate":
+                lines.append("\tGateN int %s" % go_field_tag("value", "${rgate.n},validate=min=100"))
+            elif gate == "dep":
+                lines.append("\tGateD *RetryDep %s" % go_field_tag("wire", "${rgate.dep}"))
+            lines.append("}")
+            lines.append("func (c *%s) Naming() string { return %s }" % (tnames[ci], json.dumps(cnames[ci])))
+            lines.append("func init() { retryCtors[%s] = func() any { return &%s{} } }\n" % (json.dumps(tnames[ci]), tnames[ci]))
+            out.append("\n".join(lines))
+    return "\n".join(out) + "\nvar _ definition.LazyInit = (*definition.LazyInitComponent)(nil)\n"
+
+
+def build_retry_bin(ctx, groups, base):
+    """the driver with the lazy component types of these retry groups compiled in (cached by the generated source)"""
+    src = retry_go_source(groups)
+    hsh = vlib.stable_hash([src])
+    cache = getattr(ctx, "retry_bins", None)
+    if cache is None:
+        cache = ctx.retry_bins = {}
+    if hsh in cache:
+        return cache[hsh]
+    import shutil
+    d = os.path.join(vlib.HARNESS, "work", "%s-%s%s" % (ctx.id, ctx.tier, getattr(ctx, "worktag", "")), "c17r_%s" % hsh)
+    if os.path.isdir(d):
+        shutil.rmtree(d)
+    os.makedirs(d)
+    srcdir = os.path.join(vlib.HARNESS, "cmd", "c17")
+    for f in sorted(os.listdir(srcdir)):
+        if f.endswith(".go"):
+            shutil.copy(os.path.join(srcdir, f), os.path.join(d, f))
+    open(os.path.join(d, "retry_types.go"), "w").write(src)
+    binp = vlib.go_build(ctx, "./" + os.path.relpath(d, vlib.HARNESS), out=ctx.wpath("c17r_%s.bin" % hsh))
+    cache[hsh] = binp
+    return binp
+
+
 def group_cases(g):
     return [c for st in g["starts"] for comp in st["comps"] for c in comp]
 
 
 def gen_cases(ctx, n):
+    out = gen_cases_plain(ctx, n)
+    for c in out:
+        add_xargs(ctx.rng, c, 0.65 if c.get("stream") in ("absent", "optional", "default") else 0.25)
+    return out
+
+
+def gen_cases_plain(ctx, n):
     rng = ctx.rng
     out = []
     for _ in range(n):
@@ -963,6 +1208,8 @@ def load_corpus():
             g = {"gid": len(groups), "starts": c["group"]["starts"], "corpus_file": os.path.basename(f)}
             if c["group"].get("mutate"):                 # a sharing group: holders scribble over what they were given
                 g["mutate"], g["deep"] = True, DEEP
+            if c["group"].get("retry"):                  # lazy components populated twice, Configure.Set in between
+                g["retry"] = dict(c["group"]["retry"])
             for gc in group_cases(g):
                 gc["stream"] = "corpus-group"
             groups.append(g)
@@ -974,7 +1221,26 @@ def load_corpus():
 
 
 def case_args(c):
-    return ("" if c["req"] else ",required=false") + (",mapper=" + c["mapper"] if c.get("mapper") is not None else "")
+    return (c.get("xb", "") + ("" if c["req"] else ",required=false") +
+            (",mapper=" + c["mapper"] if c.get("mapper") is not None else "") + c.get("xa", ""))
+
+
+XARGS = [",x=1", ",note=a b", ",Zed", ",k1={a,b} [1,2]", ",y=", ",q=(x, y)"]
+
+
+def add_xargs(rng, c, share=0.3):
+    """further arguments around the ones the binding reads, so that required=false / mapper= come first, last or in the
+    middle of 2-5 arguments; validate=omitempty (passes on every value) on scalar fields only - on struct fields the
+    validate processor validates the struct whatever the argument says"""
+    if c["kind"] == "lit" or rng.random() >= share:
+        return c
+    pool = XARGS + ([",validate=omitempty", ",validate=omitempty"] if c["type"][0] in ("string", "bool", "int", "uint", "float") else [])
+    r = rng.random()
+    nb, na = (rng.choice([1, 2]), 0) if r < 0.35 else (0, rng.choice([1, 2])) if r < 0.6 else (rng.choice([1, 2]), rng.choice([1, 2]))
+    pool = list(dict.fromkeys(pool))
+    picks = rng.sample(pool, min(len(pool), nb + na))
+    c["xb"], c["xa"] = "".join(picks[:nb]), "".join(picks[nb:])
+    return c
 
 
 def go_case(c, with_yaml=True):
@@ -1011,6 +1277,18 @@ def start_yaml(st):
 
 
 def go_group(g):
+    if g.get("retry"):
+        tnames, cnames = retry_names(g)
+        sets = retry_sets(g)
+        doc = retry_doc(g)
+        for c in group_cases(g):
+            c["hist"] = (doc, sets)
+        st = g["starts"][0]
+        return {"gid": g["gid"], "mutate": False, "deep": False,
+                "starts": [{"yaml": yaml_flow(doc) + "\n",
+                            "comps": [{"cases": [go_case(c, False) for c in comp]} for comp in st["comps"]]}],
+                "retry": {"ctors": tnames, "names": cnames, "gates": g["retry"]["gates"],
+                          "sets": [{"key": k, "val": pyval_json(v)} for k, v in sets]}}
     return {"gid": g["gid"], "mutate": bool(g.get("mutate")), "deep": bool(g.get("deep")),
             "starts": [{"yaml": start_yaml(st),
                                          "comps": [{"cases": [go_case(c, False) for c in comp]} for comp in st["comps"]]}
@@ -1018,13 +1296,16 @@ def go_group(g):
 
 
 DEFS = {"M": "mismatches", "V": "violations", "K": "known", "U": "unmodelled", "NT": "count_nontrivial",
-        "DC": "domain_counts", "PC": "prefill_counts", "CC": "class_counts", "SC": "sharing_counts"}
+        "DC": "domain_counts", "PC": "prefill_counts", "CC": "class_counts", "SC": "sharing_counts", "RC": "retry_counts",
+        "XC": "xargs_counts"}
 NCC = 11
 
 
 def evaluate(ctx, binp, cases, tag, groups=()):
     """implementation + Coq.  cases = the bindings run one App.Run per route; groups = bindings run together (their cases
     carry ids of their own).  returns (by_id, res) with res = {M, V: [ids], K: {id: class}, U, NT: counts}"""
+    if any(g.get("retry") for g in groups):
+        binp = build_retry_bin(ctx, groups, binp)
     gin = {"cases": [go_case(c) for c in cases], "groups": [go_group(g) for g in groups]}
     rc, res, raw, _loud = vlib.run_json_verbose_share(ctx, binp, gin, quiet_only=("groups",), timeout=3000)
     if res is None or len(res.get("outs", [])) != len(cases) or len(res.get("gouts") or []) != len(groups):
@@ -1054,6 +1335,12 @@ def evaluate(ctx, binp, cases, tag, groups=()):
                  "observed": go_["outs"]}
         if g.get("mutate"):
             shown["mutate"], shown["deep"] = True, bool(g.get("deep"))
+        if g.get("retry"):
+            shown["retry"] = dict(g["retry"], sets=gg["retry"]["sets"], set_values=retry_sets(g))
+            for o in go_["outs"]:
+                for r_ in ("prefix", "value", "prop"):
+                    if o.get(r_) and str(o[r_].get("d", "")).startswith("harness:"):
+                        raise vlib.GoBuildError("./cmd/c17 (retry group %d)" % g["gid"], o[r_]["d"] + "\n" + json.dumps(shown)[:3000])
         for c, o in zip(gcs, go_["outs"]):
             by_id[c["id"]] = {"case": c, "observed": o, "group": shown}
             try:
@@ -1073,6 +1360,10 @@ def evaluate(ctx, binp, cases, tag, groups=()):
     out["CC"] = [sum(cc[i::NCC]) for i in range(NCC)]
     sc = out["SC"]
     out["SC"] = [sum(sc[i::4]) for i in range(4)]
+    rcn = out["RC"]
+    out["RC"] = [sum(rcn[i::4]) for i in range(4)]
+    xc = out["XC"]
+    out["XC"] = [sum(xc[i::3]) for i in range(3)]
     out["odd"] = odd
     return by_id, out
 
@@ -1104,7 +1395,7 @@ def case_size(c):
     return value_size(c["value"]) + type_size(c["type"]) + len(c["text"]) + \
         (len(json.dumps(c["pre"])) // 8 + 1 if c.get("pre") is not None else 0) + \
         (1 + len(c["dflt"]) if c.get("dflt") is not None else 0) + len(c.get("pfx", "")) + len(c.get("sfx", "")) + \
-        (2 if c.get("mapper") is not None else 0)
+        (2 if c.get("mapper") is not None else 0) + len(c.get("xb", "")) + len(c.get("xa", ""))
 
 
 def entry_size(e):
@@ -1172,6 +1463,16 @@ def shrink_candidates(c):
             d = copy.deepcopy(c)
             d["dflt"] = None
             out.append(d)
+        for f in ("xb", "xa"):                           # further arguments: none, or one fewer
+            if c.get(f):
+                d = copy.deepcopy(c)
+                d[f] = ""
+                out.append(d)
+                parts = c[f].split(",")[1:]
+                if len(parts) > 1 and "{" not in c[f] and "(" not in c[f]:
+                    d = copy.deepcopy(c)
+                    d[f] = "," + ",".join(parts[1:])
+                    out.append(d)
     else:
         t = c["text"]
         if len(t) > 1:
@@ -1206,6 +1507,8 @@ def regroup(shown):
     g = {"gid": shown.get("gid", 0), "starts": [{"comps": copy.deepcopy(st["components"])} for st in shown["starts"]]}
     if shown.get("mutate"):
         g["mutate"], g["deep"] = True, bool(shown.get("deep"))
+    if shown.get("retry"):
+        g["retry"] = {"gates": list(shown["retry"]["gates"]), "spell": shown["retry"].get("spell", 1.0)}
     return g
 
 
@@ -1274,6 +1577,48 @@ def group_shrink_candidates(g, target):
     return keep[:80]
 
 
+def retry_shrink_candidates(g, target):
+    """a retry group without one component / one other binding; the gates follow their components, and a component that
+    lost the binding its first creation stumbled over ('required') gets an Init gate instead"""
+    out = []
+    _, ci0, ki0 = target
+    comps = g["starts"][0]["comps"]
+
+    def fixed(d):
+        for ci, comp in enumerate(d["starts"][0]["comps"]):
+            stuck = any(retry_stuck(c) for c in comp)
+            if d["retry"]["gates"][ci] == "required" and not stuck:
+                d["retry"]["gates"][ci] = "init"
+            elif stuck:
+                d["retry"]["gates"][ci] = "required"
+        return d
+    for ci in range(len(comps)):
+        if ci != ci0:
+            d = copy.deepcopy(g)
+            d["starts"][0]["comps"].pop(ci)
+            d["retry"]["gates"].pop(ci)
+            out.append((fixed(d), (0, ci0 - (ci < ci0), ki0)))
+    for ci, comp in enumerate(comps):
+        for ki in range(len(comp)):
+            if (ci, ki) != (ci0, ki0):
+                d = copy.deepcopy(g)
+                d["starts"][0]["comps"][ci].pop(ki)
+                if d["starts"][0]["comps"][ci]:
+                    out.append((fixed(d), (0, ci0, ki0 - (ci == ci0 and ki < ki0))))
+    for ci in range(len(comps)):
+        if g["retry"]["gates"][ci] not in ("init", "required") and not any(retry_stuck(c) for c in comps[ci]):
+            d = copy.deepcopy(g)
+            d["retry"]["gates"][ci] = "init"
+            out.append((d, target))
+    c = comps[ci0][ki0]
+    for drop in ("mapper", "dflt"):
+        if c.get(drop) is not None and not (drop == "dflt" and c.get("value0") is None and c["kind"] == "tpl"):
+            d = copy.deepcopy(g)
+            d["starts"][0]["comps"][ci0][ki0][drop] = None
+            out.append((d, target))
+    return out[:40]
+
+
 # ------------------------------------------------------------------------------------------------
 
 def load_known_merged(pid):
@@ -1319,6 +1664,7 @@ def run(ctx):
     n = 3000 if ctx.quick() else 30000
     ngroups = 320 if ctx.quick() else 3200
     nsharing = 160 if ctx.quick() else 1600
+    nretry = 140 if ctx.quick() else 1400
     corpus, corpus_groups = load_corpus()
     cases = corpus
     groups = []
@@ -1333,6 +1679,9 @@ def run(ctx):
         cases = cases + gen_cases(ctx, n)
         groups = corpus_groups + [gen_group(ctx.rng, len(corpus_groups) + g) for g in range(ngroups)]
         groups += [gen_sharing_group(ctx.rng, len(groups) + g, DEEP) for g in range(nsharing)]
+        groups += [gen_retry_group(ctx.rng, len(groups) + g) for g in range(nretry)]
+    for gi, g in enumerate(groups):                      # the generated type names of retry groups carry the gid
+        g["gid"] = gi
     for i, c in enumerate(cases):
         c["id"] = i
     singles = list(cases)
@@ -1374,7 +1723,7 @@ def run(ctx):
             return cur
         target = pos[0]
         for _round in range(15):
-            cands = group_shrink_candidates(g, target)
+            cands = retry_shrink_candidates(g, target) if g.get("retry") else group_shrink_candidates(g, target)
             if not cands:
                 break
             for gi, (d, _) in enumerate(cands):
@@ -1403,7 +1752,17 @@ def run(ctx):
                                "overwritten, a key added, the last key deleted; elements reversed, the first overwritten%s); "
                                "observed.get2 is Configure.Get(key) on the same App after the start, which must equal "
                                "observed.get" % ("; deep: also inside interface-typed positions" if entry["group"].get("deep") else "")
-                               if entry["group"].get("mutate") else ""))
+                               if entry["group"].get("mutate") else "") +
+                              ("; group.retry: the components are LAZY (generated Go types embedding definition.LazyInitComponent, "
+                               "fields as above); ONE App: Run with the document group.starts[0].yaml (the bindings' value0), "
+                               "GetComponentByName for every component - it is populated and then fails at a later stage "
+                               "(group.retry.gates: init / aps = Init / AfterPropertiesSet returns an error the first time; validate "
+                               "= a field value:\"${rgate.n},validate=min=100\" with rgate.n: 1; dep = a field wire:\"${rgate.dep}\" "
+                               "naming a component that does not exist; required = a required binding without a configured value) -, "
+                               "then Configure.Set(key, value) for group.retry.set_values, then GetComponentByName again; the "
+                               "observations are the fields after that second creation and observed.get is Configure.Get(key) at "
+                               "the end: all three routes must show the value configured at the time of the second creation"
+                               if entry["group"].get("retry") else ""))
         return cur
 
     def shrink(entry):
@@ -1440,6 +1799,7 @@ def run(ctx):
         for i, c in enumerate(more):
             c["id"] = i
         gs = [gen_group(ctx.rng, g) for g in range(200)] + [gen_sharing_group(ctx.rng, 200 + g, DEEP) for g in range(100)]
+        gs += [gen_retry_group(ctx.rng, 300 + g) for g in range(100)]
         number_groups(gs, len(more))
         b2, r2 = evaluate(ctx, binp, more, "widen", gs)
         bad = [i for i in r2["V"] if i not in r2["K"]]
@@ -1453,7 +1813,7 @@ def run(ctx):
     for c in cases:
         o = by_id[c["id"]]["observed"]
         h = vlib.stable_hash([c["kind"], c["value"], c["type"], c["req"], c["text"], bool(c.get("absent")), c.get("pre"),
-                              c.get("dflt"), c.get("pfx", ""), c.get("sfx", ""), c.get("mapper")])
+                              c.get("dflt"), c.get("pfx", ""), c.get("sfx", ""), c.get("mapper"), c.get("xb", ""), c.get("xa", "")])
         distinct[h] = 1
         oks = [o.get(r) for r in ("prefix", "value", "prop") if o.get(r) is not None and o.get(r)["o"] == "ok"]
         if oks:
@@ -1618,6 +1978,35 @@ def run(ctx):
                                       for g in sgroups for c in group_cases(g)),
           "measured in Coq: [bindings with Configure.Get read again after the scribbling; ... whose configured value is a map / "
           "list; ... bound ok by prefix; ... whose field type takes the configured value as it is (embed)]": res["SC"]}
+    xcases = [c for c in cases if c.get("xb") or c.get("xa")]
+    xa_stats = {"cases whose tags carry further arguments around required=false / mapper= (2-5 arguments in all)": len(xcases),
+                "required=false first (arguments only behind it)": sum(1 for c in xcases if not c["req"] and not c.get("xb")),
+                "required=false last": sum(1 for c in xcases if not c["req"] and not c.get("xa") and c.get("mapper") is None),
+                "required=false in the middle": sum(1 for c in xcases if not c["req"] and c.get("xb") and (c.get("xa") or c.get("mapper") is not None)),
+                "with validate=omitempty": sum(1 for c in xcases if "validate" in c.get("xb", "") + c.get("xa", "")),
+                "with a bracketed value that contains a comma": sum(1 for c in xcases if "{a,b}" in c.get("xb", "") + c.get("xa", "") or "(x, y)" in c.get("xb", "") + c.get("xa", "")),
+                "by stream": hist(c["stream"] for c in xcases),
+                "measured in Coq: [cases with further arguments; ... with required=false among them; ... of those whose key is "
+                "absent and whose value / prop routes left the field alone without failing]": res["XC"]}
+    rgroups = [g for g in groups if g.get("retry")]
+    rcases = [c for g in rgroups for c in group_cases(g)]
+    rt = {"retry groups (one App each: lazy components requested, refused after the placeholder pass, Configure.Set, requested "
+          "again)": len(rgroups),
+          "components by what refused the first creation": hist(x for g in rgroups for x in g["retry"]["gates"]),
+          "components per group": hist(len(g["starts"][0]["comps"]) for g in rgroups),
+          "bindings": len(rcases),
+          "bindings by kind (key = prefix + value placeholder + prop shorthand; tpl = placeholder inside a literal)":
+              hist(c["kind"] for c in rcases),
+          "bindings by first value": hist("absent at first" if c.get("value0") is None else "unchanged (control)"
+                                          if c.get("value0") == c["value"] else "changed by Configure.Set" for c in rcases),
+          "bindings with a default in the placeholder": sum(1 for c in rcases if c.get("dflt") is not None),
+          "bindings with required=false": sum(1 for c in rcases if not c["req"]),
+          "Set calls": sum(len(retry_sets(g)) for g in rgroups),
+          "groups whose Set calls spell the keys in another letter case": sum(1 for g in rgroups if g["retry"].get("spell", 1) < 0.3),
+          "by top-level field type": hist(type_kind(c["type"]) for c in rcases),
+          "measured in Coq: [bindings populated twice; ... whose Configure.Get answer differs from the loaded document's (a Set "
+          "reached the key); ... bound ok on every route at the second creation; ... inside the modelled fragment on all "
+          "routes (compared with Rebind.prun's last pass)]": res["RC"]}
     pc = res["PC"]
     pre["measured in Coq: pre-filled / something bound and Run ok / ... and the field ended different from the default / "
         "nothing bound and the default stayed / bound ok inside the modelled fragment (compared with decode_weak)"] = pc
@@ -1640,7 +2029,9 @@ def run(ctx):
                 "literal / prop / literal value tag).  Outside groups every evaluation is an App.Run of its own (cases of the "
                 "stream 'prefilled' register the component with a non-zero value already in the field and add one run on a zero "
                 "component); a group runs several starts in one process and binds all fields of all components of a start in "
-                "one App.Run; a case is non-trivial when at least one of its routes bound a value (outcome ok); distinct = "
+                "one App.Run; a retry group is ONE App whose lazy components are created twice (the first creation is refused after "
+                "the placeholder pass, Configure.Set corrects the configuration, the second creation populates the same Property "
+                "objects again) and reports the fields after the second creation; a case is non-trivial when at least one of its routes bound a value (outcome ok); distinct = "
                 "distinct (kind, value, type, required, literal text, default, surrounding text, mapper)",
         "app_runs": app_runs,
         "samples": samples,
@@ -1649,7 +2040,8 @@ def run(ctx):
                                "route_outcomes(prefix/value/prop)": routes,
                                "high_precision_floats": precise, "prefilled_fields": pre,
                                "placeholder_defaults_and_templates": dfl, "mapper_arguments_and_groups": mp,
-                               "sharing_groups": sh},
+                               "sharing_groups": sh, "populated_twice(retry groups)": rt,
+                               "further_tag_arguments": xa_stats},
         "cases": len(cases),
         "distinct_cases": len(distinct),
         "nontrivial_cases_coq": res["NT"],
@@ -1673,6 +2065,12 @@ def run(ctx):
                                     "(PostProcessAfterInitialization), standing in for components that modify what they were given in "
                                     "Init; maps / lists held in interface-typed positions are changed too (VERIF_C17_DEEP=0: only what is "
                                     "reachable through declared map / slice / pointer / struct types)",
+                                    "retry groups: the lazy components are generated Go source compiled into a copy of the driver "
+                                    "(methods cannot be had from reflect.StructOf); the configuration store between the two "
+                                    "creations is Model/ConfigStore.v (viper's override over the loaded document), checked "
+                                    "against Configure.Get of the real App on every binding; every binding has a non-empty "
+                                    "configured value at the second creation; a lazy component is created when it is asked "
+                                    "for by name",
                                     "bindings of a group are well-typed (every route succeeds), so that one binding cannot fail the "
                                     "start for the others; conversions and failures are exercised one binding per start",
                                     "a failing oracle counts as a known finding only if the case lies in a class KF-C17a..i AND "
